@@ -171,12 +171,42 @@ func containsEncodedSlash(rawPath string) bool {
 
 // unescapeExceptSlashes decodes all percent-encoded octets but the encoded slashes, which are left as received.
 func unescapeExceptSlashes(value string) string {
-	value = strings.ReplaceAll(value, "%2F", "$$$escaped-slash-uc$$$")
-	value = strings.ReplaceAll(value, "%2f", "$$$escaped-slash-lc$$$")
+	var sb strings.Builder
 
-	unescaped, _ := url.PathUnescape(value)
+	sb.Grow(len(value))
 
-	unescaped = strings.ReplaceAll(unescaped, "$$$escaped-slash-uc$$$", "%2F")
+	// the parts between the encoded slashes are decoded one by one. Replacing the encoded slashes by a placeholder
+	// for the time of decoding would turn a value, which happens to contain that placeholder, into an encoded slash
+	for len(value) != 0 {
+		part, slash := value, ""
 
-	return strings.ReplaceAll(unescaped, "$$$escaped-slash-lc$$$", "%2f")
+		if idx := indexOfEncodedSlash(value); idx >= 0 {
+			part, slash, value = value[:idx], value[idx:idx+3], value[idx+3:]
+		} else {
+			value = ""
+		}
+
+		unescaped, err := url.PathUnescape(part)
+		if err != nil {
+			return ""
+		}
+
+		sb.WriteString(unescaped)
+		sb.WriteString(slash)
+	}
+
+	return sb.String()
+}
+
+func indexOfEncodedSlash(value string) int {
+	upper, lower := strings.Index(value, "%2F"), strings.Index(value, "%2f")
+
+	switch {
+	case upper < 0:
+		return lower
+	case lower < 0:
+		return upper
+	default:
+		return min(upper, lower)
+	}
 }
